@@ -104,7 +104,10 @@ theorem update_order_independent (hE : EnvOk env U) {disk : Disk} {sc : SC} {roo
 /-- FULL statement (FALSE of the code, witness `update_empty_content_two_roots`): the root `Update`
     returns is a function of the resulting content alone.  **update_root_binds_content_partial**: for two
     caches — any stores, any histories, any iteration orders — that do not take the zero-root short
-    cut, the returned roots are equal IF AND ONLY IF the resulting contents are equal. -/
+    cut, the returned roots are equal IF AND ONLY IF the resulting contents are equal.
+    NOTE: `o1 o2` carry NO coverage hypothesis here: for an order that skips dirty keys the "resulting content" is the
+    trie after a PARTIAL loop (`applyDirty` skips dirty keys not in the order — a totalisation; Go's `range` visits every
+    key), so the statement also quantifies over runs the code never produces. -/
 theorem update_root_binds_content_partial (hE : EnvOk env U)
     {disk1 disk2 : Disk} {sc1 sc2 : SC} {root1 root2 : Hash} {n1 n2 : Node}
     (hR1 : Ready env disk1 sc1 root1 n1) (hR2 : Ready env disk2 sc2 root2 n2)
@@ -832,7 +835,11 @@ theorem acct_step (hE : EnvOk env U) (w : Disk × Acct) (op : AOp) (hI : AInv en
     updateTrie (any iteration orders) / Save keeps the invariant: the root the owner holds is always the
     root hash of the content the cache stands for (zero only while it is empty), so a later fresh cache
     at a saved root reads that content (`save_outcomes`, `read_through`); and no call ever fails except a
-    `Save` issued while writes are pending (`ErrTrieChanged`) or the open `overflow`. -/
+    `Save` issued while writes are pending (`ErrTrieChanged`) or the open `overflow`.     SCOPE: the world is `Disk × Acct` — ONE cache that owns the key-value store exclusively.  In /repo every
+    StorageCache has its own TrieDatabase over ONE shared BeansDB, and the account trie writes there too; that `Ready`
+    survives ANOTHER cache's `Save` (the disk grows) is not proved here (no `ready_mono`); it holds for the obvious
+    reason (Sound + HashOk: a second write of a hash carries the same blob) and the harness runs several caches over
+    one disk. -/
 theorem acct_history (hE : EnvOk env U) : ∀ (ops : List AOp) (w : Disk × Acct), AInv env U w →
     (∀ op, op ∈ ops → AOk U op) →
     AInv env U (arun env w ops).1 ∧ ∀ e, e ∈ (arun env w ops).2 → e = .trieChanged ∨ e = .overflow := by
